@@ -6,12 +6,13 @@ from vlib.core import Case
 PROP = "C03"
 SPEC_MODE = "spec"
 KEEP_PREFIX = 2            # `clock T0` and `load …` are never removed by the shrinker
-SIZES = {"quick": 500, "thorough": 12000}
+SIZES = {"quick": 1500, "thorough": 40000}
 BATCH = 1000
 RULE = ("one `load` of 1-4 circuit-breaking rules (all three strategies, 1-3 breakers on the main resource, sometimes a second "
         "resource; bucket counts {0,1,2,5,10}, statistic intervals that do / do not divide, ProbeNum in {0,1,2,3}, MinRequestAmount "
         "0..10, thresholds on a 1/1000 grid incl. 0 and 1, retry timeouts 1..3000 ms, ~4% invalid rules) followed by 40-260 ops built from "
-        "phases: bursts of entries with bad/good completions (response time around MaxAllowedRtMs), waits landing on bucket "
+        "phases incl. ~2% odd input (unknown / double exit, resource without rules, re-used entry id) and "
+        "bursts of entries with bad/good completions (response time around MaxAllowedRtMs), waits landing on bucket "
         "boundaries / retry deadline -1,0,+1 / whole windows, probes (good, bad, several in flight), stragglers exited in a later "
         "state, observations (`log`, `state`) after most ops; non-trivial = the listener log contains at least one Closed->Open and "
         "one transition out of HalfOpen; distinct by (rules, transition sequence)")
@@ -172,6 +173,20 @@ class G:
                 self.obs()
             else:
                 self.request(True)
+        elif k < 0.94:
+            # odd input: exit of an unknown / already exited id, resource without rules, re-used entry id
+            w = rng.randrange(4)
+            if w == 0:
+                self.ops.append(f"exit {rng.choice([0, self.nid + 50, max(1, self.nid - 1)])}" + rng.choice(["", " err"]))
+            elif w == 1:
+                self.nid += 1
+                self.ops.append(f"entry {self.nid} z")
+                self.ops.append(f"exit {self.nid} err")
+            elif w == 2 and self.nid > 0:
+                self.ops.append(f"entry {rng.randint(1, self.nid)} {RES}")
+            else:
+                self.ops.append("state z")
+            self.obs(0.8)
         else:
             # hammer entries without completing anything (open => all blocked; half-open gate)
             for _ in range(rng.randint(2, 6)):
